@@ -74,6 +74,11 @@ func c20Enumerate(tier string) []c20Case {
 						for _, par := range []bool{false, true} {
 							for _, obs := range []bool{true, false} {
 								cases = append(cases, c20Case{Runs: R, Gens: G, SolvedAt: solved, Observer: obs, Parallel: par, Fault: c20Fault{"eval_error", r, g}})
+								if !par {
+									// the evaluator fails with an error of its own that looks like a context error (its private deadline
+									// expired) while the context of the run is alive
+									cases = append(cases, c20Case{Runs: R, Gens: G, SolvedAt: solved, Observer: obs, Fault: c20Fault{"eval_error_deadline", r, g}})
+								}
 								cases = append(cases, c20Case{Runs: R, Gens: G, SolvedAt: solved, Observer: obs, Parallel: par, Fault: c20Fault{"cancel_in_eval", r, g}})
 								if g != solved[r] {
 									cases = append(cases, c20Case{Runs: R, Gens: G, SolvedAt: solved, Observer: obs, Parallel: par, Fault: c20Fault{"cancel_mid_epoch", r, g}})
@@ -110,7 +115,7 @@ func init() {
 		Run:         runC20,
 		Exhaustive:  true,
 		Required: []string{"cases.none", "cases.eval_error", "cases.cancel_in_eval", "cases.cancel_in_epoch_evaluated", "cases.cancel_in_trial_started",
-			"cases.cancel_in_trial_finished", "cases.cancel_mid_epoch", "cases.parallel", "cases.no_observer", "cases.eval_error_solved", "cases.trials_preallocated", "cases.experiment_reused_after_longer_run", "trials.solved", "trials.unsolved", "canceled.returned"},
+			"cases.cancel_in_trial_finished", "cases.cancel_mid_epoch", "cases.parallel", "cases.no_observer", "cases.eval_error_solved", "cases.eval_error_deadline", "cases.trials_preallocated", "cases.experiment_reused_after_longer_run", "trials.solved", "trials.unsolved", "canceled.returned"},
 	})
 }
 
@@ -202,6 +207,9 @@ func (rec *c20Recorder) GenerationEvaluate(ctx context.Context, pop *genetics.Po
 	f := rec.cs.Fault
 	if f.Kind == "eval_error" && f.R == r && f.G == g {
 		return errC20Boom
+	}
+	if f.Kind == "eval_error_deadline" && f.R == r && f.G == g {
+		return fmt.Errorf("evaluation of organism 3 timed out: %w", context.DeadlineExceeded)
 	}
 	for i, o := range pop.Organisms {
 		o.Fitness = float64(i + 1)
@@ -324,7 +332,10 @@ func runC20(c *Ctx, idx int) {
 	case 2:
 		exp.Trials = make(experiment.Trials, cs.Runs+2)
 		for i := range exp.Trials {
-			exp.Trials[i] = experiment.Trial{Id: staleId + i}
+			// what an earlier run left behind: every trial holds generations (one of them solved) and a cached winner
+			exp.Trials[i] = experiment.Trial{Id: staleId + i, Generations: experiment.Generations{
+				{Id: 0, TrialId: staleId + i}, {Id: 1, TrialId: staleId + i, Solved: true, WinnerNodes: 5, WinnerGenes: 7, WinnerEvals: 11, Diversity: 2}}}
+			_, _, _, _ = exp.Trials[i].WinnerStatistics()
 		}
 		c.Count("cases.experiment_reused_after_longer_run", 1)
 	}
@@ -372,6 +383,21 @@ func runC20(c *Ctx, idx int) {
 		}
 		if !tracesEqual(got, want) {
 			fail("trace", "observed call sequence %v differs from the protocol %v", got, want)
+			return
+		}
+	case "eval_error_deadline":
+		if !errors.Is(runErr, context.DeadlineExceeded) {
+			fail("error-not-returned", "the evaluator's own deadline error at (%d,%d) was not returned to the caller: %v", f.R, f.G, runErr)
+			return
+		}
+		cut := -1
+		for i, e := range want {
+			if e.Kind == "eval" && e.R == f.R && e.G == f.G {
+				cut = i
+			}
+		}
+		if cut < 0 || !tracesEqual(got, want[:cut+1]) {
+			fail("trace", "after the evaluator error at (%d,%d) the call sequence is %v, expected %v", f.R, f.G, got, want[:cut+1])
 			return
 		}
 	case "eval_error", "eval_error_solved":
@@ -474,6 +500,10 @@ func runC20(c *Ctx, idx int) {
 				fail("trials-recorded", "trial %d generation %d has no champion recorded", r, g)
 				return
 			}
+		}
+		if wantSolved := cs.SolvedAt[r] >= 0 && cs.SolvedAt[r] < cs.Gens; tr.Solved() != wantSolved {
+			fail("trials-recorded", "trial %d reports Solved() = %v, the evaluator solved it: %v", r, tr.Solved(), wantSolved)
+			return
 		}
 		if cs.Observer {
 			if n, ok := rec.finishLen[r]; ok && n != evaluated {
